@@ -1,6 +1,7 @@
 import MetapypeModel.Model.Import
 import MetapypeModel.Props.C20
 import MetapypeModel.Lemmas.RoundTripNode
+import MetapypeModel.Lemmas.Collapse
 /-
   C08 — XML import mirrors the document; import-export-import is stable.
   The model starts from the infoset lxml hands over (Model/Import.lean); the theorems are for every
@@ -122,6 +123,70 @@ theorem C08_clean_kept (collapse : Bool) (s : String) :
   constructor
   · simp [cleanText]
   · intro h; simp [cleanText, h]
+
+/-! ### inner collapsing (`collapse=True`) -/
+
+/-- with collapsing, a cleaned text (outside literal elements and blank-only texts) is the words of the original text — the
+    maximal runs of non-white-space characters, all of them, in order — separated by single spaces -/
+theorem C08_collapse_words (s r : String) (hb : isBlankKeep s.toList = false) (h : cleanText true false (some s) = some r) :
+    r.toList = joinSp (wsWords s.toList) ∧ wsWords r.toList = wsWords s.toList := by
+  simp only [cleanText, Bool.false_eq_true, if_false, hb, if_true] at h
+  split at h
+  · cases h
+  · simp only [Option.some.injEq] at h
+    subst h
+    simp only [String.toList_ofList]
+    exact ⟨by unfold collapseWs; rw [pyWordsOf_eq], wsWords_collapseWs s.toList⟩
+
+theorem isBlankKeep_all_space (s : List Char) (h : isBlankKeep s = true) : s.all pyIsSpace = true := by
+  unfold isBlankKeep at h
+  simp only [Bool.and_eq_true, List.all_eq_true] at h ⊢
+  intro c hc
+  have := h.2 c hc
+  simp only [Bool.or_eq_true, beq_iff_eq] at this
+  rcases this with (rfl | rfl) | rfl
+  · decide
+  · exact nbsp_isSpace
+  · decide
+
+/-- the clean-mode policy with collapsing is idempotent on every text: cleaning a cleaned text changes nothing, so
+    import → export → import is stable in collapse mode as well -/
+theorem C08_collapse_idempotent (x : Option String) :
+    cleanText true false (cleanText true false x) = cleanText true false x := by
+  cases x with
+  | none => rfl
+  | some s =>
+    by_cases hb : isBlankKeep s.toList = true
+    · simp [cleanText, hb]
+    · have hb' : isBlankKeep s.toList = false := by simpa using hb
+      by_cases hst : (pyStrip s.toList).isEmpty = true
+      · simp [cleanText, hb', hst]
+      · have h1 : cleanText true false (some s) = some (String.ofList (collapseWs s.toList)) := by
+          simp [cleanText, hb', hst]
+        rw [h1]
+        -- the collapsed text has the same (non-empty) word list
+        have hw : wsWords (collapseWs s.toList) = wsWords s.toList := wsWords_collapseWs s.toList
+        have hne : wsWords s.toList ≠ [] := by
+          intro h0
+          have hall := (wsWords_nil_iff s.toList).mp h0
+          apply hst
+          have : pyStrip s.toList = [] := by unfold pyStrip; rw [stripLeft_all_space _ hall]; rfl
+          simp [this]
+        have hnb : isBlankKeep (collapseWs s.toList) = false := by
+          cases hk : isBlankKeep (collapseWs s.toList) with
+          | false => rfl
+          | true =>
+            have := (wsWords_nil_iff _).mpr (isBlankKeep_all_space _ hk)
+            rw [hw] at this; exact absurd this hne
+        have hst2 : (pyStrip (collapseWs s.toList)).isEmpty = false := by
+          cases hk : (pyStrip (collapseWs s.toList)).isEmpty with
+          | false => rfl
+          | true =>
+            have he : pyStrip (collapseWs s.toList) = [] := by simpa using hk
+            have := wsWords_pyStrip (collapseWs s.toList)
+            rw [he, wsWords_nil, hw] at this
+            exact absurd this.symm hne
+        simp only [cleanText, Bool.false_eq_true, if_false, String.toList_ofList, hnb, hst2, if_true, collapseWs_idem]
 
 /-- stability of the policy under the white space an exporter adds around a text: re-cleaning a padded, already
     cleaned (trimmed) text gives the same text back -/
